@@ -647,7 +647,7 @@ with PolarsImpl.impl_store.impl_manager as impl:
 
     @impl(ops.str_replace_all)
     def _str_replace_all(x, to_replace, replacement):
-        return x.str.replace_all(to_replace, replacement)
+        return x.str.replace_all(to_replace, replacement, literal=True)
 
     @impl(ops.str_len)
     def _str_len(x):
